@@ -111,13 +111,51 @@ class StreamReadline(Contract):
 
 
 @register
+class StreamTell(Contract):
+    qualname = "ext.Stream.tell"
+    trusted = "stream.tell() (if the stream has one): returns an int or raises OSError (io.UnsupportedOperation on pipes, sockets' makefile())"
+
+    def apply(self, eng, st, selfv, args, kwargs, site):
+        s2 = st.fork()
+        return [(st, SInt(st.obj(selfv).fields["pos"])), (s2, RaiseExc(OSError, "underlying stream is not seekable"))]
+
+
+@register
+class StreamSeekable(Contract):
+    qualname = "ext.Stream.seekable"
+    trusted = "stream.seekable(): some bool"
+
+    def apply(self, eng, st, selfv, args, kwargs, site):
+        from pyvc.values import fresh_name
+        return [(st, SBool(z3.Bool(fresh_name("seekable"))))]
+
+
+@register
+class StreamSeek(Contract):
+    qualname = "ext.Stream.seek"
+    trusted = "stream.seek(): moves the cursor anywhere in 0..len or raises OSError; the reader's contracts (consumed bytes are never re-read) hold only if it is not used"
+
+    def apply(self, eng, st, selfv, args, kwargs, site):
+        from pyvc.values import fresh_name
+        s2 = st.fork()
+        f = st.obj(selfv).fields
+        newpos = z3.Int(fresh_name("pos_after_seek"))
+        st.assume(newpos >= 0, newpos <= f["end"])
+        f["pos"] = newpos
+        st.writes.add((selfv.oid, "pos"))
+        return [(st, SInt(newpos)), (s2, RaiseExc(OSError, "underlying stream is not seekable"))]
+
+
+@register
 class ErrorHandler(Contract):
     qualname = "ext.errorhandler"
-    trusted = "user errorhandler(err): returns, does not raise, does not touch the reader or the stream"
+    trusted = "user errorhandler(err): returns (any value), does not raise, does not touch the reader or the stream"
 
     def apply(self, eng, st, selfv, args, kwargs, site):
         st.ghost["hcalls"] = SInt(z3.simplify(int_term(st.ghost.get("hcalls", 0)) + 1))
-        return [(st, None)]
+        # what the handler returns is its own business (None, a count, the error, True ...): the reader must not act on it
+        from pyvc.values import STruthy, fresh_name
+        return [(st, STruthy(z3.Bool(fresh_name("handler_result_truthy"))))]
 
 
 def new_reader(st, stream, quitonerror=None, handler=False, name="r"):
